@@ -119,6 +119,32 @@ def step (_ : Unit) (ws : List String) : Unit × String :=
         match fromRecord bs with
         | some k => s!"ok {kindName k}"
         | none => "err"
+    | ["ischunk", h] => (unhex h).map fun bs =>
+        match isChunk bs with
+        | some b => s!"ok {b}"
+        | none => "err"
+    | ["ischunksweep", b0] => do
+      let b0 ← match unhex b0 with | some [b] => some b | _ => none
+      let rows := (List.range 256).filterMap fun b1 =>
+        let row := (List.range 256).map fun b2 =>
+          match isChunk [b0, b1, b2, 0xc1] with
+          | some true => "t"
+          | some false => "f"
+          | none => "-"
+        if row.any (· ≠ "-") then some s!"{hex2 b1}:{rle row}" else none
+      some (if rows.isEmpty then "none" else " ".intercalate rows)
+    | ["hdrtry", h] => (unhex h).map fun bs =>
+        match headerTryDeserialize bs with
+        | some k => s!"ok {kindName k}"
+        | none => "err"
+    | ["hdrtrysweep2"] =>
+      let rows := (List.range 256).filterMap fun b0 =>
+        let row := (List.range 256).map fun b1 =>
+          match headerTryDeserialize [b0, b1] with
+          | some k => kindName k
+          | none => "-"
+        if row.any (· ≠ "-") then some s!"{hex2 b0}:{rle row}" else none
+      some (if rows.isEmpty then "none" else " ".intercalate rows)
     | ["hdrsweep", b0] => do
       let b0 ← match unhex b0 with | some [b] => some b | _ => none
       let rows := (List.range 256).filterMap fun b1 =>
@@ -179,6 +205,9 @@ def searchCandidates : List String :=
     | some (_, tag) => headerBytes k != [0x91, tag] || fromRecord (headerBytes k ++ [0xc0]) != some k
     | none => true
   bad.map (fun k => s!"hdr {kindName k}") ++
+    -- the chunk test must err exactly when the header decoder errs and be true exactly for the chunk tag
+    ([[0x91, 8, 0], [0x91, 1, 0], [0x91, 0, 0], [0x00, 0x00, 0x00], [0x91, 1], [0x91, 0xcc, 1], [0x92, 1, 1]].filterMap fun bs =>
+      if isChunk bs != (fromRecord bs).map (· == .Chunk) then some s!"ischunk {hex bs}" else none) ++
     (if (Chunk.ofVal standInHash (.bin [1, 2, 3])).map (·.address) != some (standInHash [1, 2, 3]) then
       ["chunk 0000000000000000000000000000000000000000000000000000000000000000 010203"] else [])
 
